@@ -121,6 +121,8 @@ func c16RunImpl(c corr.Case) []string {
 					fs = top
 				}
 				return "ok"
+			case "walk-history":
+				return c16WalkHistory()
 			case "walk-os-links":
 				return c16WalkOSLinks(t[1])
 			case "walk":
@@ -203,6 +205,9 @@ func c16WalkOSLinks(how string) string {
 		walk = func(root string, fn filepath.WalkFunc) error { return afero.Walk(ro, root, fn) }
 	case "ro-method":
 		walk = afero.Afero{Fs: afero.NewReadOnlyFs(osfs)}.Walk
+	case "cow": // the tree is the base of a union whose overlay is empty
+		cow := afero.NewCopyOnWriteFs(afero.NewReadOnlyFs(osfs), afero.NewMemMapFs())
+		walk = func(root string, fn filepath.WalkFunc) error { return afero.Walk(cow, root, fn) }
 	default:
 		return "bad-op"
 	}
@@ -217,7 +222,10 @@ func c16WalkOSLinks(how string) string {
 	if strings.HasPrefix(how, "ro") {
 		gfs = afero.NewReadOnlyFs(osfs)
 	}
-	for _, pat := range []string{"r/linkdir/*", "r/*/sub", "r/*/sub/f", "r/l*/s*", "rootlink/*", "rootlink/*/sub/*", "r/dangling/*", "r/linkfile/*", "r/*", "r/link*", "*/linkdir/sub/?", "r/[l]inkdir/*/f"} {
+	if how == "cow" {
+		gfs = afero.NewCopyOnWriteFs(afero.NewReadOnlyFs(osfs), afero.NewMemMapFs())
+	}
+	for _, pat := range []string{"r/linkdir/*", "r/*/sub", "r/*/sub/f", "r/l*/s*", "rootlink/*", "rootlink/*/sub/*", "r/dangling/*", "r/linkfile/*", "r/*", "r/link*", "*/linkdir/sub/?", "r/[l]inkdir/*/f", "r/dangling", "r/linkfile", "r/d*"} {
 		got, err1 := afero.Glob(gfs, filepath.Join(dir, pat))
 		want, err2 := filepath.Glob(filepath.Join(dir, pat))
 		if (err1 == nil) != (err2 == nil) || strings.Join(got, " ") != strings.Join(want, " ") {
@@ -227,9 +235,78 @@ func c16WalkOSLinks(how string) string {
 	return "ok"
 }
 
+// c16WalkHistory: a tree that was not built in one go but has a history (directories renamed with their contents,
+// moved children removed, renamed, created again) — Walk and Glob over the MemMapFs that went through it against
+// the standard library on an operating-system directory that went through the same calls.
+func c16WalkHistory() string {
+	dir, err := os.MkdirTemp("", "verif-c16h-")
+	if err != nil {
+		return "fail: " + err.Error()
+	}
+	defer os.RemoveAll(dir)
+	mem := afero.NewMemMapFs()
+	twin := afero.NewBasePathFs(afero.NewOsFs(), dir)
+	for _, fs := range []afero.Fs{mem, twin} {
+		fs.MkdirAll("/a/sub/deep", 0o755)
+		for _, f := range []string{"/a/f", "/a/g", "/a/sub/x", "/a/sub/deep/y", "/top"} {
+			afero.WriteFile(fs, f, []byte("x"), 0o644)
+		}
+		fs.Rename("/a", "/b")
+		fs.Remove("/b/f")
+		fs.Rename("/b/sub/x", "/b/sub/z")
+		fs.Rename("/b/sub", "/b/moved")
+		afero.WriteFile(fs, "/b/moved/new", []byte("n"), 0o644)
+		fs.RemoveAll("/b/moved/deep")
+		fs.Mkdir("/b/moved/deep", 0o755)
+		fs.Rename("/top", "/b/g2")
+	}
+	collect := func(walk func(root string, fn filepath.WalkFunc) error, root, strip string) string {
+		var vs []string
+		err := walk(root, func(p string, fi os.FileInfo, err error) error {
+			k := "?"
+			if fi != nil {
+				k = "f"
+				if fi.IsDir() {
+					k = "d"
+				}
+			}
+			e := ""
+			if err != nil {
+				e = "!"
+			}
+			vs = append(vs, strings.TrimPrefix(p, strip)+":"+k+e)
+			return nil
+		})
+		return strings.Join(vs, " ") + fmt.Sprintf(" => %v", err != nil)
+	}
+	for _, root := range []string{"/", "/b", "/b/moved", "/a"} {
+		got := collect(func(r string, fn filepath.WalkFunc) error { return afero.Walk(mem, r, fn) }, root, "")
+		want := collect(filepath.Walk, filepath.Join(dir, root), dir)
+		if root == "/" {
+			want = strings.Replace(want, ":d", "/:d", 1) // the twin's root is the directory itself
+			want = strings.TrimPrefix(want, "/:d")
+			got = strings.TrimPrefix(got, "/:d")
+		}
+		if got != want {
+			return fmt.Sprintf("fail: walking %s of a tree with a history: afero visits [%s], filepath.Walk visits [%s]", root, got, want)
+		}
+	}
+	for _, pat := range []string{"/b/*", "/b/*/*", "/*/moved/*", "/b/g*", "/a/*", "/b/moved/[a-z]*"} {
+		got, err1 := afero.Glob(mem, pat)
+		want, err2 := filepath.Glob(filepath.Join(dir, pat))
+		for i := range want {
+			want[i] = strings.TrimPrefix(want[i], dir)
+		}
+		if (err1 == nil) != (err2 == nil) || strings.Join(got, " ") != strings.Join(want, " ") {
+			return fmt.Sprintf("fail: Glob(%s) over a tree with a history: afero gives %v, filepath.Glob gives %v", pat, got, want)
+		}
+	}
+	return "ok"
+}
+
 func c16Oracle(c corr.Case, impl []string) (string, int) {
 	for i, l := range c.Lines {
-		if strings.HasPrefix(l, "walk-os-links") && strings.HasPrefix(impl[i], "fail") {
+		if (strings.HasPrefix(l, "walk-os-links") || strings.HasPrefix(l, "walk-history")) && strings.HasPrefix(impl[i], "fail") {
 			return impl[i], i
 		}
 	}
@@ -387,7 +464,7 @@ func c16Random(r *corr.Rand, tier string) []corr.Case {
 // every single and every pair of (visit index, action) on a fixed tree: SkipDir / error on any entry
 func c16Exhaustive(tier string) []corr.Case {
 	h := corr.HexS
-	links := corr.Case{Lines: []string{"case mem", "walk-os-links func", "walk-os-links method", "walk-os-links ro", "walk-os-links ro-method"}}
+	links := corr.Case{Lines: []string{"case mem", "walk-os-links func", "walk-os-links method", "walk-os-links ro", "walk-os-links ro-method", "walk-os-links cow", "walk-history"}}
 	items := []string{"d:" + h("/r"), "f:" + h("/r/a"), "d:" + h("/r/b"), "f:" + h("/r/b/x"), "d:" + h("/r/b/y"), "f:" + h("/r/b/y/z"), "f:" + h("/r/c"), "d:" + h("/r/d"), "f:" + h("/r/e")}
 	cases := []corr.Case{links}
 	for _, st := range []string{"mem", "ro", "cow"} {
